@@ -1,6 +1,6 @@
 # Per-property claims; exec'd by gen_manifest.py (claim(id, technique, text, note, design_ref)).
 PENDING = "check not built yet in this framework (DESIGN.md §8 build order); no verdict is claimed until its rule set runs clean both ways"
-for _p in ["C01","C02","C03","C04","C05","C06","C07","C08","C11","C14","C15","C16","C17","C18","C19","C20"]:
+for _p in ["C01","C02","C03","C04","C05","C06","C07","C08","C11","C14","C15","C16","C18","C19","C20"]:
     NOT_APPLICABLE[_p] = PENDING
 
 claim("C10",
@@ -26,3 +26,9 @@ claim("C12",
   "Decides the domain half of the primitives for all inputs: which (value,width) pairs, input lengths and millisecond values each constructor/decoder rejects is extracted statically and compared with the specified domain — widths 1..8; for each width n exactly [0,2^(8n)-1]; 1..8 input bytes for decoders; strings up to 255 bytes; every fixed-size reader rejects exactly len<size — plus: only big-endian primitives are used anywhere in the library, narrowing conversions in the primitive files are reached only with fitting values, and the unsigned accessor does not detour through a signed type. The boundaries (2^(8n), 255/256, size 0/9) are decided exactly rather than sampled. Value-level decode(encode(x)) = x is not decided.",
   "Trusted: go/ssa, encoding/binary.BigEndian. Assumes 64-bit int. Exported API names (NewIntegerFromInt, EncodeIntN, DecodeIntN, …) are anchors; fixed-size readers are discovered by signature.",
   "DESIGN.md §5 C12")
+
+claim("C17",
+  "call-graph closure scan for resolver calls + path-sensitive abstract evaluation of the accessors under each assumption about net.ParseIP/To4 + interval partitioning on the strconv.Atoi result",
+  "Shows for every input at once that (a) nothing reachable from a RouterAddress method can resolve a name: the only package-net resolver call is ResolveIPAddr(\"\", ip.String()) of a non-nil ParseIP result; (b) Host, HasValidHost and the host-derived IP version all gate on net.ParseIP: assuming it returns nil every path fails/false/empty, assuming non-nil success is possible and the value is that ResolveIPAddr result, IPv4/IPv6 follows To4; (c) Port and HasValidPort accept exactly Atoi values in [1,65535] and Port returns Itoa of that value; (d) option lookup matches whole keys with ==; (e) StaticKey/IV accept exactly their array length. The separately written predicates are thereby shown to share gate and region for all strings, which examples cannot.",
+  "Trusted: net.ParseIP accepts exactly IP literals; strconv.Atoi/Itoa; VTA call graph. Exported accessor names are anchors.",
+  "DESIGN.md §5 C17")
